@@ -23,7 +23,8 @@ HOSTS = [("reg", "example.com", "example.com"), ("ipv4", "127.0.0.1", "127.0.0.1
 UIS = [("none", "", None, None), ("u", "u@", "u", None), ("up", "u:p@", "u", "p")]
 PORT_TEXTS_BAD = ["-1", "65536", "10000000000", "x", "8x", "80x", "0x50", "1.0", "1e2", " ", "80 81"]
 PORT_TEXTS_LENIENT = ["+80", "8_0", " 80", "80 ", "٨٠", "０", "00080", "+0"]
-PORT_TEXTS_ZEROS = ["080", "0080", "00", "0443", "021"]
+# *DIGIT: any number of leading zeros spells the same port (length is not value)
+PORT_TEXTS_ZEROS = ["080", "0080", "00", "0443", "021", "000080", "0000443", "000000", "065535", "00000000000000000000080", "0000000000065535"]
 
 # parts also run by 4 threads at once in one process (runner adds the jobs; see yv/ctx.py Ctx.threaded)
 SHARED = [("shapes", {"stride": 100}, {"stride": 5})]
